@@ -64,7 +64,7 @@ def flow_sexp(flow, payload=canon_action):
             rs = "()"
         else:
             cats = " ".join("(" + enc_str(str(c["uuid"])) + " " + enc_str(c["name"]) + " " + enc_str(str(c["exit_uuid"])) + ")" for c in r["categories"])
-            rn = ostr(r.get("result_name"))
+            rn = ostr(r.get("result_name") or None)   # "" = no result saved
             if r["type"] == "switch":
                 cases = " ".join(
                     "(" + enc_str(str(k["uuid"])) + " " + enc_str(k["type"]) + " (" + " ".join(ostr(x) for x in k["arguments"]) + ") " + enc_str(str(k["category_uuid"])) + ")"
@@ -147,16 +147,27 @@ def py_lts(flow):
                 cs.append((k["type"], tuple(args), cname(k["category_uuid"])))
             w = r.get("wait")
             ws = None if w is None else (("timeout", int(w["timeout"]["seconds"]), cname(w["timeout"]["category_uuid"])) if "timeout" in w else ("msg",))
-            sig = ("switch", r["operand"], ws, r.get("result_name"), tuple(cs), cname(r["default_category_uuid"]))
+            sig = ("switch", r["operand"], ws, r.get("result_name") or None, tuple(cs), cname(r["default_category_uuid"]))
             bs = [(("case", i), cdest(k["category_uuid"])) for i, k in enumerate(r["cases"])]
             bs.append((("default",), cdest(r["default_category_uuid"])))
             if w and "timeout" in w:
                 bs.append((("timeout",), cdest(w["timeout"]["category_uuid"])))
             return ("dec", sig, bs)
-        sig = ("random", r.get("result_name"), tuple(c["name"] for c in r["categories"]))
+        sig = ("random", r.get("result_name") or None, tuple(c["name"] for c in r["categories"]))
         return ("dec", sig, [(("bucket", i), cdest(c["uuid"])) for i, c in enumerate(r["categories"])])
 
     return kind
+
+
+WILDNAME = "\uffffWILD"
+
+
+def sig_match(a, b):
+    if a == WILDNAME or b == WILDNAME:
+        return True
+    if isinstance(a, tuple) and isinstance(b, tuple):
+        return len(a) == len(b) and all(sig_match(x, y) for x, y in zip(a, b))
+    return a == b
 
 
 def distinguishing_trace(f, g, limit=20000):
@@ -188,7 +199,7 @@ def distinguishing_trace(f, g, limit=20000):
                 return tr + [f"left performs {xa[1]}, right performs {xb[1]}"]
             nxt = [((xa[2], xb[2]), tr + [("act", xa[1])])]
         elif xa[0] == "dec":
-            if xa[1] != xb[1]:
+            if not sig_match(xa[1], xb[1]):
                 return tr + [f"decision signatures differ: {xa[1]} vs {xb[1]}"]
             if [l for l, _ in xa[2]] != [l for l, _ in xb[2]]:
                 return tr + ["branch lists differ"]
@@ -227,7 +238,7 @@ def compile_workbook(sheets, index_rows=None, tags=None, data_models=None, fmt="
         shutil.rmtree(d, ignore_errors=True)
 
 
-INDEX_HEADERS = ["type", "sheet_name", "data_sheet", "data_row_id", "new_name", "data_model", "template_arguments", "status", "group", "options"]
+INDEX_HEADERS = ["type", "sheet_name", "data_sheet", "data_row_id", "new_name", "data_model", "template_arguments", "status", "group"]
 
 
 def single_flow_workbook(flow_name, headers, rows, extra_sheets=None, extra_index=None):
@@ -235,3 +246,14 @@ def single_flow_workbook(flow_name, headers, rows, extra_sheets=None, extra_inde
               flow_name: (headers, rows)}
     sheets.update(extra_sheets or {})
     return sheets
+
+
+def template_workbook(flow_name, headers, rows, context):
+    """the flow sheet instantiated as a template with one data row providing `context`"""
+    keys = list(context)
+    return {
+        "content_index": (INDEX_HEADERS, [dict(type="data_sheet", sheet_name="ctxdata"),
+                                          dict(type="create_flow", sheet_name=flow_name, data_sheet="ctxdata", data_row_id="row1")]),
+        "ctxdata": (["ID"] + keys, [dict({"ID": "row1"}, **context)]),
+        flow_name: (headers, rows),
+    }
